@@ -1096,7 +1096,7 @@ def coq_view(name, c):
     return "(%d, [%s])" % (cls * 1000 + meth, "; ".join(args))
 
 
-def coq_case(line, out):
+def coq_case(line, out, normal=False):
     """One kcase term from the case given to the harness and what it printed; None when the
     case cannot be expressed (schedule-driven order)."""
     ci = json.loads(line)
@@ -1117,12 +1117,13 @@ def coq_case(line, out):
         res.append((ch, cls, fam, kind == "req", mid))
     res.sort()
     res_t = "; ".join("(%d, %d, %d, %s, %d)" % (a, b, c, "true" if d else "false", e) for a, b, c, d, e in res)
-    return ("{| k_client_first := %s; k_c := %s; k_ct := %s; k_s := %s; k_st := %s;\n   k_obs := (%s, %s, [%s], [%s]) |}" % (
+    return ("{| k_client_first := %s; k_c := %s; k_ct := %s; k_s := %s; k_st := %s;\n   k_obs := (%s, %s, [%s], [%s]); k_normal := %s |}" % (
         "true" if ci["order"] == "cs" else "false", coq_bytes(bytes.fromhex(ci["c"])), tails[ci["ct"]],
-        coq_bytes(bytes.fromhex(ci["s"])), tails[ci["st"]], oc[out["c"]["out"]], oc[out["s"]["out"]], ";\n     ".join(items), res_t))
+        coq_bytes(bytes.fromhex(ci["s"])), tails[ci["st"]], oc[out["c"]["out"]], oc[out["s"]["out"]], ";\n     ".join(items), res_t,
+        "true" if normal and ci["order"] == "cs" else "false"))
 
 
-def k_check(ctx, name, pairs, chunk=400, maxbytes=2000, budget=3000000):
+def k_check(ctx, name, pairs, chunk=400, maxbytes=2000, budget=3000000, normal_ids=()):
     """Model <-> implementation correspondence: the model, evaluated inside Coq on the same
     streams, must reproduce outcome classes, items and residue.  Returns indices (into pairs)
     on which they differ, or None when the case file did not compile."""
@@ -1131,7 +1132,7 @@ def k_check(ctx, name, pairs, chunk=400, maxbytes=2000, budget=3000000):
     for i, (line, out) in enumerate(pairs):
         if len(line) > 4 * maxbytes:
             continue
-        t = coq_case(line, out)
+        t = coq_case(line, out, normal=out.get("id") in normal_ids)
         if t is not None and total + len(t) <= budget:       # elaborating the literals costs ~7 us per character
             terms.append(t)
             idx.append(i)
